@@ -26,9 +26,12 @@ section" the right granularity. -/
 theorem lock_discipline : Generated.C14.unlockedAccesses = [] := by decide
 
 /-- `deleteJournal` (the only exclusive section in the code base) is straight-line: between `LockExclusively` and
-the matching `UnlockExclusively` it calls nothing that can wait for a partition. With `progress_*` below this is
+the matching `UnlockExclusively` it calls nothing that can wait for a partition (lock; `j.Sync()`; size test; then
+either unlock + return, or `Delete` + unlock), it contains no loop, switch, goroutine or defer, and no `return` or `panic`
+is reached while the lock is held. With `progress_*` below this is
 the deadlock-freedom argument: waiting happens only on an exclusively locked source, and its locker never waits. -/
-theorem exclusive_section_straight_line : Generated.C14.blockingCallsInsideExclusiveSection = [] := by decide
+theorem exclusive_section_straight_line : Generated.C14.blockingCallsInsideExclusiveSection = [] ∧
+    Generated.C14.exclusiveSectionLockedExits = [] := by decide
 
 /-- exclusive locks are taken by `deleteJournal` only, and only on a partition with exactly one reader (the model's
 `lockRaw` demands `readers == 1`) -/
